@@ -1,0 +1,26 @@
+//! Verification hooks of the DAP adapter (cargo feature `verif`, off by default, add-only).
+//!
+//! Named schedule points between the allocation of a message sequence number and the write of that
+//! message to the transport, in the session thread and in both output forwarders. An external harness
+//! installs a callback to observe the allocation and, if it wants, to hold the calling thread so that
+//! a chosen interleaving of the writers is forced. Without a callback the points do nothing.
+
+use std::sync::RwLock;
+
+/// `(point name, sequence number just allocated by the calling thread)`
+pub type SchedHook = fn(&'static str, i64);
+
+static SCHED_HOOK: RwLock<Option<SchedHook>> = RwLock::new(None);
+
+/// Install (or remove) the schedule-point callback.
+pub fn set_sched_hook(hook: Option<SchedHook>) {
+    *SCHED_HOOK.write().unwrap() = hook;
+}
+
+/// Called by a writer after it took `seq` from the shared counter and before it locks the transport.
+pub fn sched_point(name: &'static str, seq: i64) {
+    let hook = *SCHED_HOOK.read().unwrap();
+    if let Some(hook) = hook {
+        hook(name, seq);
+    }
+}
